@@ -158,5 +158,19 @@ func Corpus() []*Case {
 			{"I", "_", &Block{Stmts: []Stmt{ExprStmt{say("i")}}, Final: If{Cond: trB(true), Then: B(say("t"))}}},
 		}, Default: B(say("dflt"))}},
 	}, Final: done}))
+	// generic record and generic union at two instantiations inside one inferred type, nested instantiations
+	out = append(out, mk("generic-instances-in-one-type", nil, &Block{Stmts: []Stmt{
+		LetDestr{[]string{"x", "y"}, call("bothG", trI(1), trS("s"))},
+		ExprStmt{call("frt.Printf1", StrLit{"=%d"}, call("getGI", Var{"x"}))},
+		ExprStmt{call("frt.Printf1", StrLit{"%s\n"}, call("getGS", Var{"y"}))},
+		Let{"r", Match{Target: call("nestO", trI(2), trS("t")), Arms: []Arm{
+			{"Some", "p", &Block{Stmts: []Stmt{LetDestr{[]string{"_", "q"}, Var{"p"}}},
+				Final: Match{Target: Var{"q"}, Arms: []Arm{{"Some", "w", B(Var{"w"})}, {"None", "", B(StrLit{"n"})}}}}},
+			{"None", "", B(StrLit{"z"})}}}},
+		ExprStmt{call("frt.Printf1", StrLit{"=%s\n"}, Var{"r"})},
+		LetDestr{[]string{"o1", "o2"}, call("both", trS("u"), trI(3))},
+		ExprStmt{call("frt.Printf1", StrLit{"=%d\n"}, Match{Target: Var{"o2"}, Arms: []Arm{{"Some", "i", B(Var{"i"})}, {"None", "", B(IntLit{0})}}})},
+		ExprStmt{call("frt.Printf1", StrLit{"=%s\n"}, Match{Target: Var{"o1"}, Arms: []Arm{{"Some", "s", B(Var{"s"})}, {"None", "", B(StrLit{""})}}})},
+	}, Final: done}))
 	return out
 }
